@@ -18,6 +18,7 @@ from pyPRISM.closure.MartynovSarkisov import MartynovSarkisov
 from .. import core
 from .. import refmodel as R
 from .. import gen as G
+from .. import tutorials as T
 
 PID = 'C03'
 RULE = ('cases = random systems of rank 1-3 with at least one hard-core pair (hard-core potential closed with PY/HNC, or any closure with the flag) mixed with '
@@ -97,6 +98,9 @@ def core_set(sp, a, b, r):
 
 
 def cases(ctx):
+    for i, name in enumerate(T.NAMES):
+        if ctx.mine(i):
+            yield {'kind': 'tutorial', 'name': name}
     rng = ctx.rng('c03')
     n = ctx.budget(160, 4000)
     for it in range(n):
@@ -119,7 +123,61 @@ def hostile(rng, n, kind, prev=None):
     return rng.uniform(-5, 5, size=n)
 
 
+def register(sp, p, r):
+    """registry: closure instance of the live object -> pair info computed from the USER's inputs"""
+    _S['registry'] = {}
+    ncore_pairs = 0
+    for (i, j), (a, b) in G.pairs(sp['types']):
+        m, sig = core_set(sp, a, b, r)
+        if m.any():
+            ncore_pairs += 1
+        _S['registry'][id(p.sys.closure[a, b])] = {'pair': '%s-%s' % (a, b), 'core': np.where(m)[0], 'clo': sp['clo'][G.pk(a, b)]['t'], 'hc': bool(sp['clo'][G.pk(a, b)].get('hc')),
+                                                  'pot': sp['pot'][G.pk(a, b)]['t'], 'sigma': sig,
+                                                  'u_core': sp['pot'][G.pk(a, b)].get('hv', 1e6) / sp['kT'], 'sigma_flag': (sp['d'][a] + sp['d'][b]) / 2.0}
+    return ncore_pairs
+
+
+def check_solved(ctx, sp, p, res, r, what):
+    g = np.asarray(pyPRISM.calculate.pair_correlation(p).data)
+    Y = float(np.abs(res.fun).max())
+    for (i, j), (a, b) in G.pairs(sp['types']):
+        m, sig = core_set(sp, a, b, r)
+        if not m.any():
+            continue
+        ctx.hook('solved.g_inside_core')
+        bound = Y / r[m] + 1e-9
+        dev = np.abs(g[m, i, j])
+        ctx.observe('g_core/bound', float((dev / bound).max()))
+        if not np.all(dev <= bound):
+            k = int(np.argmax(dev / bound))
+            ctx.violation('core:g-nonzero-inside-core', 'solved %s: |g_%s%s(r=%.4g)| = %.3g inside the core (sigma=%.4g) exceeds residual/r = %.3g' % (
+                what, a, b, r[m][k], dev[k], sig, bound[k]))
+            break
+
+
+def run_tutorial(ctx, case):
+    """the maintainers' case studies: every evaluation of every solve is watched by the core hook, every solved object is judged"""
+    def before(sp, s, p):
+        register(sp, p, R.grids(sp['L'], sp['dr'])[0])
+        _S['active'] = True
+
+    def on_step(sp, s, p, res, label):
+        _S['active'] = False
+        ctx.hook('tutorial.step_judged')
+        check_solved(ctx, sp, p, res, R.grids(sp['L'], sp['dr'])[0], label)
+        ctx.count('tutorial', case['name'])
+    try:
+        nok, n = T.run(case['name'], on_step, before_solve=before)
+    finally:
+        _S['active'] = False
+    ctx.count('tutorial_steps', '%s: %d of %d solved' % (case['name'], nok, n))
+    if nok:
+        ctx.nontrivial(['tutorial', case['name']])
+
+
 def run_case(ctx, case):
+    if case.get('kind') == 'tutorial':
+        return run_tutorial(ctx, case)
     rng = np.random.default_rng(case['seed'])
     for attempt in range(20):
         sp = G.gen_spec(rng, lengths=[64, 100, 128])
@@ -145,16 +203,7 @@ def run_case(ctx, case):
                 s.diameter[t] = final[t]
             ctx.hook('diameter_sweep_history')
         p = s.createPRISM()
-    # registry: closure instance of the live object -> pair info computed from the USER's inputs
-    _S['registry'] = {}
-    ncore_pairs = 0
-    for (i, j), (a, b) in G.pairs(sp['types']):
-        m, sig = core_set(sp, a, b, r)
-        if m.any():
-            ncore_pairs += 1
-        _S['registry'][id(p.sys.closure[a, b])] = {'pair': '%s-%s' % (a, b), 'core': np.where(m)[0], 'clo': sp['clo'][G.pk(a, b)]['t'], 'hc': bool(sp['clo'][G.pk(a, b)].get('hc')),
-                                                  'pot': sp['pot'][G.pk(a, b)]['t'], 'sigma': sig,
-                                                  'u_core': sp['pot'][G.pk(a, b)].get('hv', 1e6) / sp['kT'], 'sigma_flag': (sp['d'][a] + sp['d'][b]) / 2.0}
+    ncore_pairs = register(sp, p, r)
     n = sp['L'] * len(sp['types']) ** 2
     before = ctx.hooks.get('core.evaluation_checked', 0)
     _S['active'] = True
@@ -183,21 +232,7 @@ def run_case(ctx, case):
             # the user looked at S(k) or B2 first: totalCorr is then held in Fourier space when g(r) is requested
             (pyPRISM.calculate.structure_factor if rng.random() < 0.5 else pyPRISM.calculate.second_virial)(p)
             ctx.hook('solved.g_requested_with_h_in_fourier_space')
-        g = np.asarray(pyPRISM.calculate.pair_correlation(p).data)
-        Y = float(np.abs(res.fun).max())
-        for (i, j), (a, b) in G.pairs(sp['types']):
-            m, sig = core_set(sp, a, b, r)
-            if not m.any():
-                continue
-            ctx.hook('solved.g_inside_core')
-            bound = Y / r[m] + 1e-9
-            dev = np.abs(g[m, i, j])
-            ctx.observe('g_core/bound', float((dev / bound).max()))
-            if not np.all(dev <= bound):
-                k = int(np.argmax(dev / bound))
-                ctx.violation('core:g-nonzero-inside-core', 'solved %s: |g_%s%s(r=%.4g)| = %.3g inside the core (sigma=%.4g) exceeds residual/r = %.3g' % (
-                    G.spec_signature(sp), a, b, r[m][k], dev[k], sig, bound[k]))
-                break
+        check_solved(ctx, sp, p, res, r, G.spec_signature(sp))
     if ncore_pairs and ctx.hooks.get('core.evaluation_checked', 0) - before >= 10:
         ctx.nontrivial(case)
     ctx.count('hard_core_pairs', ncore_pairs)
